@@ -27,7 +27,9 @@ def run(ctx):
     ctx.rule('C07.R4', 'reconcile: base.get(p) guarded by trust_base true edge; otherwise constant None; that value goes to reconcile_path', floor=2)
     ctx.rule('C07.R5', 'reconcile_path never yields DeleteA/DeleteB when base is absent (decision DAG)', floor=1)
     ctx.rule('C07.R6', 'remove_file in the bisync call graph only on DeleteA/DeleteB arms of apply', floor=2)
+    ctx.rule('C07.R7', 'the pair key hashes the symlink-resolved (canonicalized) roots: it identifies directories, not spellings', floor=2)
     r1(ctx, F)
+    r7(ctx, F)
     r2(ctx, F, ip)
     r3(ctx, F, ip)
     r4(ctx, F)
@@ -230,3 +232,59 @@ def r4(ctx, F):
         ctx.check(ok and has_none, 'C07.R4', 'reconcile:z->reconcile_path', 'z ∈ {base.get(p) under trust_base, None}',
                   'the base value handed to reconcile_path is not {trusted lookup, None}: %s' % sorted({'%s:%s' % (o.kind, o.key) for o in oz}),
                   term_loc(b, cb))
+
+
+RESOLVERS = ('std::fs::canonicalize', 'std::path::Path::canonicalize', 'tokio::fs::canonicalize', 'std::fs::read_link')
+
+
+def value_includes_call(F, body, op, pred, depth=0, seen=None):
+    """Some origin of the operand is the result of a call satisfying `pred` - followed through closure calls
+    (Fn::call -> the closure body's return value) and nested closures."""
+    if seen is None:
+        seen = set()
+    fl = flow_of(body)
+    for o in fl.origins(op):
+        k = (body.path, o.kind, o.key, o.bb)
+        if k in seen:
+            continue
+        seen.add(k)
+        if o.kind != 'call':
+            continue
+        if pred(o.key):
+            return True
+        t = body.blocks[o.bb]['term']
+        if o.key in ('std::ops::Fn::call', 'std::ops::FnOnce::call_once', 'std::ops::FnMut::call_mut') and depth < 4:
+            for c in fl.origins(t['args'][0]):
+                cb = F.body(c.key) if c.kind == 'agg' else None
+                if cb is not None and value_includes_call(F, cb, {'k': 'copy', 'p': {'l': 0, 'proj': []}}, pred, depth + 1, seen):
+                    return True
+        elif F.body(o.key) is not None and depth < 4:
+            cb = F.body(o.key)
+            if value_includes_call(F, cb, {'k': 'copy', 'p': {'l': 0, 'proj': []}}, pred, depth + 1, seen):
+                return True
+        else:
+            # combinators taking a closure (unwrap_or_else, map, ...) and plain adapters: look at what they were given
+            for a in t['args'][:1]:
+                if depth < 6 and value_includes_call(F, body, a, pred, depth + 1, seen):
+                    return True
+    return False
+
+
+def r7(ctx, F):
+    b = F.body('archive::root_pair_hash')
+    if b is None:
+        ctx.missing('C07.R7', 'archive::root_pair_hash')
+    fl = flow_of(b)
+    ups = fl.calls(lambda c: c.endswith('Hasher::update'))
+    n = 0
+    for ub, ut in ups:
+        os_ = fl.origins(ut['args'][1])
+        if os_ and all(o.kind == 'const' for o in os_):
+            continue        # the separator
+        n += 1
+        ok = value_includes_call(F, b, ut['args'][1], lambda c: c in RESOLVERS)
+        ctx.check(ok, 'C07.R7', 'root_pair_hash:update#%d' % n, 'hashed root passes through canonicalize',
+                  'the archive key is computed from a root path that was not symlink-resolved (canonicalize): two different directories reached '
+                  'through one spelling (a re-pointed symlink, a remounted path) share an archive, and the foreign base licenses deletes', term_loc(b, ub))
+    if n < 2:
+        ctx.missing('C07.R7', 'root_pair_hash: two hashed roots (found %d)' % n)
